@@ -324,37 +324,29 @@ worker_harness!(c08_aawr2_m06, 1, 6, sh_aawr2, 1);
 // @harness name=c08_aawr2_m07 prop=C08 tier=thorough timeout=1200
 worker_harness!(c08_aawr2_m07, 1, 7, sh_aawr2, 1);
 
-// ---- c08_tawrw: 5 requests, 16 batching schedules ----
+// ---- c08_tawrw: 5 requests, 16 batching schedules ---- (masks 3, 7, 11, 15 put more requests into one batch than the unwinding bound 5 allows: removed, as for c04_tataw)
 // @harness name=c08_tawrw_m00 prop=C08 tier=thorough timeout=1200
 worker_harness!(c08_tawrw_m00, 2, 0, sh_tawrw, 2);
 // @harness name=c08_tawrw_m01 prop=C08 tier=thorough timeout=1200
 worker_harness!(c08_tawrw_m01, 2, 1, sh_tawrw, 2);
 // @harness name=c08_tawrw_m02 prop=C08 tier=thorough timeout=1200
 worker_harness!(c08_tawrw_m02, 2, 2, sh_tawrw, 2);
-// @harness name=c08_tawrw_m03 prop=C08 tier=thorough timeout=1200
-worker_harness!(c08_tawrw_m03, 2, 3, sh_tawrw, 2);
 // @harness name=c08_tawrw_m04 prop=C08 tier=thorough timeout=1200
 worker_harness!(c08_tawrw_m04, 2, 4, sh_tawrw, 2);
 // @harness name=c08_tawrw_m05 prop=C08 tier=thorough timeout=1200
 worker_harness!(c08_tawrw_m05, 2, 5, sh_tawrw, 2);
 // @harness name=c08_tawrw_m06 prop=C08 tier=thorough timeout=1200
 worker_harness!(c08_tawrw_m06, 2, 6, sh_tawrw, 2);
-// @harness name=c08_tawrw_m07 prop=C08 tier=thorough timeout=1200
-worker_harness!(c08_tawrw_m07, 2, 7, sh_tawrw, 2);
 // @harness name=c08_tawrw_m08 prop=C08 tier=thorough timeout=1200
 worker_harness!(c08_tawrw_m08, 2, 8, sh_tawrw, 2);
 // @harness name=c08_tawrw_m09 prop=C08 tier=thorough timeout=1200
 worker_harness!(c08_tawrw_m09, 2, 9, sh_tawrw, 2);
 // @harness name=c08_tawrw_m10 prop=C08 tier=thorough timeout=1200
 worker_harness!(c08_tawrw_m10, 2, 10, sh_tawrw, 2);
-// @harness name=c08_tawrw_m11 prop=C08 tier=thorough timeout=1200
-worker_harness!(c08_tawrw_m11, 2, 11, sh_tawrw, 2);
 // @harness name=c08_tawrw_m12 prop=C08 tier=thorough timeout=1200
 worker_harness!(c08_tawrw_m12, 2, 12, sh_tawrw, 2);
 // @harness name=c08_tawrw_m13 prop=C08 tier=thorough timeout=1200
 worker_harness!(c08_tawrw_m13, 2, 13, sh_tawrw, 2);
 // @harness name=c08_tawrw_m14 prop=C08 tier=thorough timeout=1200
 worker_harness!(c08_tawrw_m14, 2, 14, sh_tawrw, 2);
-// @harness name=c08_tawrw_m15 prop=C08 tier=thorough timeout=1200
-worker_harness!(c08_tawrw_m15, 2, 15, sh_tawrw, 2);
 
